@@ -6704,16 +6704,16 @@ impl QueryRouter {
     fn parse_condition(&self, cond_str: &str) -> Result<Condition> {
         let cond_str = cond_str.trim();
 
-        // Handle AND/OR
-        if let Some(pos) = cond_str.to_uppercase().find(" AND ") {
-            let left = self.parse_condition(&cond_str[..pos])?;
-            let right = self.parse_condition(&cond_str[pos + 5..])?;
-            return Ok(left.and(right));
-        }
+        // Handle AND/OR: OR binds weaker than AND, so split on OR first
         if let Some(pos) = cond_str.to_uppercase().find(" OR ") {
             let left = self.parse_condition(&cond_str[..pos])?;
             let right = self.parse_condition(&cond_str[pos + 4..])?;
             return Ok(left.or(right));
+        }
+        if let Some(pos) = cond_str.to_uppercase().find(" AND ") {
+            let left = self.parse_condition(&cond_str[..pos])?;
+            let right = self.parse_condition(&cond_str[pos + 5..])?;
+            return Ok(left.and(right));
         }
 
         // Parse simple condition: col op value
